@@ -143,3 +143,8 @@ def erase_broadcast(t):
             return sp.Integer(1)
         return None
     return T.rewrite(t, fn)
+
+
+# shape knowledge for the array identity test (arrayeval): coordinate vectors are 1-d
+from .. import arrayeval as _ae
+_ae.HINTS.update({F: 1, dsv("direction"): 1})
